@@ -624,13 +624,33 @@ def spec_c02_step(ctx: Ctx, inp: dict, idx: int, op, before: dict, after: dict |
     ta = t * scale_of(olds) * 4
     # every new cell inside exactly one old cell
     children: dict[int, list[dict]] = {}
-    for c in news:
+    last_parent = 0
+    # old cells that overlap within the area tolerance are valid; "inside exactly one old cell" then has no geometric
+    # meaning and the groups are read off in order (the result is the concatenation of one group per old cell)
+    by_order: dict[int, int] | None = None
+    if any(c_overlap(olds[i], olds[j]) > ta for i in range(len(olds)) for j in range(i + 1, len(olds))):
+        by_order = {}
+        pos = 0
+        for i, p in enumerate(olds):
+            acc = Fraction(0)
+            while pos < len(news) and acc < p["w"] * p["h"] - ta * 2:
+                by_order[pos] = i
+                acc += news[pos]["w"] * news[pos]["h"]
+                pos += 1
+        if pos != len(news):
+            by_order = None
+    for k_c, c in enumerate(news):
         ps = find_parent(c, olds, t)
+        if by_order is not None:
+            ps = [by_order[k_c]] if by_order[k_c] in ps else []
         if len(ps) > 1:
             # with a tolerance a thin child may also fit into a neighbour: a real second parent overlaps it
             real = [i for i in ps if c_overlap(c, olds[i]) > ta]
             if len(real) > 1:
-                ps = []
+                # old cells that overlap within the area tolerance are valid: the groups come in the order of the
+                # old cells (op_sameRegion), so take the first candidate at or after the previous child's parent
+                later = [i for i in real if i >= last_parent]
+                ps = [min(later)] if later else [max(real)]
             elif len(real) == 1:
                 ps = real
             else:
@@ -640,6 +660,7 @@ def spec_c02_step(ctx: Ctx, inp: dict, idx: int, op, before: dict, after: dict |
             ctx.spec_fail(f"{name}_sameRegion:one-parent", inp, {"step": idx, "op": op, "cell": small(c), "parents": ps}, size)
             return
         children.setdefault(ps[0], []).append(c)
+        last_parent = ps[0]
         p = olds[ps[0]]
         if c["alloc"] != p["alloc"]:
             ctx.spec_fail(f"{name}_inherit:ratios", inp, {"step": idx, "op": op, "cell": small(c), "parent": small(p)}, size)
